@@ -3,7 +3,7 @@ From Coq Require Import List Bool String.
 Import ListNotations.
 Require Import MV.Spec.Types MV.Model.Validate MV.Gen.TypeTables MV.Proofs.TypesP.
 Require Import MV.Model.ValidateChain MV.Proofs.ValidateChainP.
-Require Import MV.Model.ValidateSet MV.Proofs.ValidateSetP.
+Require Import MV.Model.ValidateSet MV.Model.ValidateSetCheck MV.Proofs.ValidateSetP.
 
 (* The code's two compatibility relations and its Arrow->DataType map, regenerated from /repo on this run by
    evaluating them on all 121 pairs / 24 Arrow types, equal the documented tables. *)
@@ -221,3 +221,26 @@ Example C17_set_examples :
   /\ run_set strict_spec lenient_spec wit_groups wit_links [ {| f_name := "uid"%string; f_decl := None; f_own := SAbsent |} ]
           ({| u_group := 0; u_name := "uid"%string; u_decl := Some STRING; u_strict := SAbsent |} :: wit_us) wit_cols = SOk.
 Proof. vm_compute; repeat split. Qed.
+
+(* ---- the statement in executable form (Model/ValidateSetCheck.spec_request: a function of the user's declarations alone - links,
+        indexes and index columns do not occur in it) is the verdict of the engine model, for ALL requests; this is what the
+        correspondence evaluates on every generated request (chk_links_spec) next to the model itself (chk_links) ---- *)
+Theorem C17_verdict_depends_on_declarations_only : forall strict lenient groups links filters api rs cols,
+  fst (run_request strict lenient groups links filters api rs cols) = spec_request strict lenient groups filters api rs cols.
+Proof. exact run_request_is_spec. Qed.
+Print Assumptions C17_verdict_depends_on_declarations_only.
+
+(* the typed part of the collection = declared_entries (user features with a resulting declaration + filter features the user
+   declared a type on), with declared filters allowed *)
+Theorem C17_typed_collection_is_declared : forall groups links filters us coll,
+  collect groups links filters us = Some coll ->
+  forall e, typed e = true -> (In e coll <-> In e (declared_entries groups filters us)).
+Proof. exact typed_collection_is_declared. Qed.
+Print Assumptions C17_typed_collection_is_declared.
+
+Theorem C17_declared_entries_of_user_features : forall groups filters us e,
+  undeclared_filters filters ->
+  (In e (declared_entries groups filters us) <->
+   exists u d, In u us /\ declared_type groups u = Some (Some d) /\ e = user_entry u (Some d)).
+Proof. exact declared_entries_undeclared_filters. Qed.
+Print Assumptions C17_declared_entries_of_user_features.
